@@ -60,7 +60,9 @@ Inductive fcase :=
   (* hash_collection(FeatureCollection, agg_fn): items carry the implementation's own hash set *)
 | KCollection (a : aggk) (items : list kitem) (out : list (list Z * aggv))
   (* hash_coordinates: default agg_fn (count) and a custom agg_fn returning the coordinates *)
-| KCoords (base len : Z) (pts : list (Q * Q)) (out : list (list Z * Z)) (out_pts : list (list Z * list (Q * Q))).
+| KCoords (base len : Z) (pts : list (Q * Q)) (out : list (list Z * Z)) (out_pts : list (list Z * list (Q * Q)))
+  (* an answer the harness could not encode: always a mismatch *)
+| KBad.
 
 Definition check (k : fcase) : bool :=
   match k with
@@ -95,4 +97,5 @@ Definition check (k : fcase) : bool :=
           dict_eqb Z.eqb (niemeyer_hash_coordinates c (Z.to_nat len) (fun l => Z.of_nat (length l)) pts) out &&
           dict_eqb qpairs_eqb (niemeyer_hash_coordinates c (Z.to_nat len) (fun l => l) pts) out_pts
       end
+  | KBad => false
   end.
